@@ -310,6 +310,11 @@ func (w *Writer) Close() error {
 			// in buf.Bytes() returning the whole allocated bytes.
 			w.dataBlock.buf.Reset()
 			w.bpool.Put(w.dataBlock.buf.Bytes())
+			// The buffer now belongs to the pool: a second Close (e.g. on the
+			// retry after a failed finish) must not return it again, and
+			// nothing may write to it any more.
+			w.bpool = nil
+			w.dataBlock.buf = util.Buffer{}
 		}
 	}()
 
